@@ -231,6 +231,55 @@ def run(rep, tier):
         ok = isinstance(rv, IV) and rv.aff is not None and rv.aff[0] == {'X': 1} and rv.aff[1] == 0
         rep.add('R4', 'run-returns-exit-value:%s' % cls, ok, pos(fr.node) + ' run (hextb.cpp)',
                 'for exit values in [%d,%d] run() returns %r (%s)' % (lo, hi, rv, ivinterp.aff_str(rv.aff) if isinstance(rv, IV) else '?'))
+    rule_defaults(rep, tb, sim)
+
+
+def option_default(ix, opt):
+    """(constant initial value, position) of the variable that main() assigns under `strcmp(argv[i], opt) == 0`; value None if not constant."""
+    m = [f for f in ix.all_funcs() if f.name == 'main' and f.body is not None and not f.cls]
+    if len(m) != 1:
+        raise AnalysisBroken('main() not found')
+    m = m[0]
+    parents = {}
+    for a in walk(m.body):
+        for b in children(a):
+            parents[id(b)] = a
+    for c in cast.calls_in(m.body):
+        if callee_of(c)[1] != 'strcmp' or cast.string_lit(c) != opt:
+            continue
+        x = c
+        while id(x) in parents and parents[id(x)]['kind'] != 'IfStmt':
+            x = parents[id(x)]
+        if id(x) not in parents:
+            continue
+        ifs = parents[id(x)]
+        then = children(ifs)[1]
+        for y in walk(then):
+            if y['kind'] in ('BinaryOperator', 'CXXOperatorCallExpr') and (y.get('opcode') == '=' or callee_of(y)[1] == 'operator='):
+                tgt = children(y)[0] if y['kind'] == 'BinaryOperator' else cast.call_args(y)[0]
+                vid = cast.decl_ref(tgt)
+                d = ix.by_id.get(vid) if vid else None
+                if d is not None and d.get('kind') == 'VarDecl':
+                    init = [k for k in children(d) if 'kind' in k]
+                    return (cast.const_int(init[-1], ix) if init else None), pos(d), d.get('name')
+    raise AnalysisBroken('no variable is assigned under the %s option in %s' % (opt, pos(m.node)))
+
+
+def rule_defaults(rep, tb, sim):
+    rep.rule('R5', 'without options both simulators run under the same limits: the variable main() sets from --max-cycles starts at the same '
+             'constant in hextb.cpp and hexsim.cpp (0 = no limit; hextb leaves run() silently with status 0 when its limit is reached)', floor=1)
+    try:
+        a, b = option_default(tb, '--max-cycles'), option_default(sim, '--max-cycles')
+    except AnalysisBroken as e:
+        rep.undecided('R5', 'max-cycles-default', str(e), 'hextb.cpp main')
+        return
+    if a[0] is None or b[0] is None:
+        rep.undecided('R5', 'max-cycles-default', 'initial value not a constant (hextb %r, hexsim %r)' % (a[0], b[0]), a[1] + ' main (hextb.cpp)')
+        return
+    rep.add('R5', 'max-cycles-default', a[0] == b[0], a[1] + ' main (hextb.cpp)',
+            'both start at %d' % a[0] if a[0] == b[0] else
+            'hextb starts %s at %d, hexsim at %d: a program that needs more cycles ends on hextb with status 0 and its output cut, on hexsim it '
+            'runs to its exit' % (a[2], a[0], b[0]))
 
 
 def exit_value(idx, lo, hi):
